@@ -1120,7 +1120,11 @@ class Evaluator:
         if isinstance(e, ast.Subscript):
             return self._subscript(T(e.value), self._index(e.slice, at, R))
         if isinstance(e, ast.Tuple):
-            return c.mk(("tuple",), self._splice([T(x) for x in e.elts]))
+            els = self._splice([T(x) for x in e.elts])
+            if self.exact and len(els) == 1 and (c.head_of(els[0]) or ("",))[0] == "star":
+                # (*X,) is tuple(X)
+                return self._func_call("tuple", [c.args_of(els[0])[0]], [], {}, False)
+            return c.mk(("tuple",), els)
         if isinstance(e, ast.List):
             return c.mk(("list",), self._splice([T(x) for x in e.elts]))
         if isinstance(e, ast.Set):
@@ -1259,7 +1263,10 @@ class Evaluator:
             parts = [self._t(x, at, R) if x is not None else none for x in (s.lower, s.upper, s.step)]
             return c.mk(("slice",), parts)
         if isinstance(s, ast.Tuple):
-            return c.mk(("tuple",), self._splice([self._index2(x, at, R) for x in s.elts]))
+            els = self._splice([self._index2(x, at, R) for x in s.elts])
+            if self.exact and len(els) == 1 and (c.head_of(els[0]) or ("",))[0] == "star":
+                return self._func_call("tuple", [c.args_of(els[0])[0]], [], {}, False)       # x[(*s,)] is x[tuple(s)]
+            return c.mk(("tuple",), els)
         if isinstance(s, ast.Starred):
             return c.mk(("star",), (self._t(s.value, at, R),))
         return self._t(s, at, R)
@@ -1319,8 +1326,19 @@ class Evaluator:
         c = self.ctx
         if self.exact and not isinstance(op, (ast.BitAnd, ast.BitOr)) and not (a.is_const() and b.is_const()):
             # floating-point arithmetic is neither associative nor distributive: in exact mode an operation is the
-            # operation that was written (x + y*f - x is not y*f)
-            return c.mk(("fbin", type(op).__name__), (a, b))
+            # operation that was written (x + y*f - x is not y*f).  What IS exact in IEEE arithmetic: dividing by a power of
+            # two is multiplying by its reciprocal (x / 2.0 == 0.5 * x, both are the correctly rounded value of the same
+            # number), and a product / sum with a literal number does not depend on the order of its operands
+            opn = type(op).__name__
+            if opn == "Div" and b.is_const() and b.const() != 0:
+                kb = abs(b.const())
+                if kb.numerator == 1 or kb.denominator == 1:
+                    m = kb.denominator if kb.numerator == 1 else kb.numerator
+                    if m & (m - 1) == 0 and m > 1:
+                        opn, b = "Mult", c.const(1 / b.const())
+            if opn in ("Mult", "Add") and a.is_const() and not b.is_const() and not isinstance(a.const(), bool):
+                a, b = b, a
+            return c.mk(("fbin", opn), (a, b))
         if isinstance(op, ast.Add):
             # list/tuple/str concatenation stays symbolic but commutative-insensitive is wrong for
             # sequences; sequences are recognised by their heads
